@@ -178,9 +178,10 @@ func short(b []byte) []byte {
 // ---------------------------------------------------------------------------
 
 type obs struct {
-	set   map[string]string // hash -> bytes key
-	items map[string]types.Evidence
-	size  int64
+	set      map[string]string // hash -> bytes key
+	items    map[string]types.Evidence
+	size     int64
+	reported map[string]bool // items already reported by observe as invalid / committed
 }
 
 func (h *hist) dbPendingCount() int {
@@ -202,7 +203,7 @@ func (h *hist) dbPendingCount() int {
 // known S11 defect would explain for it.
 func (h *hist) observe(op string, s11 int64, afterRestart bool) *obs {
 	p := h.pool()
-	o := &obs{set: map[string]string{}, items: map[string]types.Evidence{}}
+	o := &obs{set: map[string]string{}, items: map[string]types.Evidence{}, reported: map[string]bool{}}
 	o.size = int64(p.Size())
 	list, _ := p.PendingEvidence(-1)
 	if h.r.Intn(2) == 0 {
@@ -251,7 +252,12 @@ func (h *hist) observe(op string, s11 int64, afterRestart bool) *obs {
 			h.c.HarnessError("C11 hist %d: pending item of unknown provenance after %s: %s", h.idx, op, evDesc(ev))
 			h.dead = true
 		} else if !ok {
-			h.violation("pending-contains-invalid-"+op, fmt.Sprintf("after %s an item that fails the reference predicate (%s) is pending", op, why),
+			o.reported[k] = true
+			key := "pending-contains-invalid-" + op
+			if why == misattributed {
+				key = misattributedKey
+			}
+			h.violation(key, fmt.Sprintf("after %s an item that fails the reference predicate (%s) is pending", op, why),
 				map[string]interface{}{"evidence": evDesc(ev), "reason": why})
 		}
 	}
@@ -267,7 +273,7 @@ func (h *hist) bounds(op string, o *obs, must, may map[string]bool) {
 		}
 	}
 	for k := range o.set {
-		if !may[k] {
+		if !may[k] && !o.reported[k] { // an item reported as invalid above is not reported a second time
 			extra = append(extra, fmt.Sprintf("%X", short([]byte(k)))+" "+evDesc(o.items[k]))
 		}
 	}
@@ -310,6 +316,10 @@ type listVerdict struct {
 	s11          int64    // re-counts the S11 defect would produce
 	mayAdd       map[string]bool
 	failingDescs []string
+	// classKeys: for every failing item the finding key of its input class, if it
+	// has one of its own ("" otherwise); explained = all of them have one.
+	classKeys []string
+	explained bool
 }
 
 func (h *hist) judgeList(list []types.Evidence) listVerdict {
@@ -341,9 +351,16 @@ func (h *hist) judgeList(list []types.Evidence) listVerdict {
 			v.reasons = append(v.reasons, class)
 			v.failingDescs = append(v.failingDescs, class+" "+evDesc(ev))
 			_, isDVE := ev.(*types.DuplicateVoteEvidence)
-			if !(class == "expired" && isDVE && h.prev[k] != "") {
+			ck := ""
+			if class == "expired" && isDVE && h.prev[k] != "" {
+				ck = "checkevidence-accepts-expired-pending"
+			} else {
 				v.onlyExpPend = false
 			}
+			if class == "invalid:"+misattributed {
+				ck = misattributedKey
+			}
+			v.classKeys = append(v.classKeys, ck)
 		} else {
 			v.mayAdd[k] = true
 		}
@@ -365,6 +382,10 @@ func (h *hist) judgeList(list []types.Evidence) listVerdict {
 	}
 	if v.accept {
 		v.onlyExpPend = false
+	}
+	v.explained = len(v.classKeys) > 0
+	for _, ck := range v.classKeys {
+		v.explained = v.explained && ck != ""
 	}
 	return v
 }
@@ -438,6 +459,7 @@ func (h *hist) opAdd(raw types.Evidence, label string) {
 		h.countWire(wm, gerr)
 		if gerr == nil {
 			h.adoptVerdict(raw, wire)
+			h.wire[wire] = wm // the decoded form still carries the rewritten fields when it is offered again
 		}
 	case h.r.Intn(5) == 0:
 		label += "/rpc"
@@ -448,7 +470,7 @@ func (h *hist) opAdd(raw types.Evidence, label string) {
 	}
 	var aerr error
 	if gerr == nil {
-		aerr = h.guard("addevidence", func() error { return h.pool().AddEvidence(wire) })
+		aerr = h.guard("addevidence", []*wireMut{wm}, func() error { return h.pool().AddEvidence(wire) })
 		if h.dead {
 			return
 		}
@@ -497,11 +519,19 @@ func (h *hist) opAdd(raw types.Evidence, label string) {
 		case !fresh:
 			cls = "expired"
 		}
-		h.violation("addevidence-admits-"+cls, fmt.Sprintf("AddEvidence admitted %s evidence (%s)", cls, why),
+		key := "addevidence-admits-" + cls
+		if cls == "invalid" && why == misattributed {
+			key = misattributedKey
+		}
+		h.violation(key, fmt.Sprintf("AddEvidence admitted %s evidence (%s)", cls, why),
 			map[string]interface{}{"evidence": evDesc(raw), "mutation": label, "reason": why})
+	} else if want && !wasPending && !nowPending && wm != nil && wm.lenient {
+		// an encoding whose refusal is acceptable (see wire.go)
+		h.c.Count("wire/lenient-mutation-refused", 1)
+		delete(must, k)
 	} else if want && !wasPending && !nowPending {
 		key := "addevidence-rejects-genuine-" + kindOf(raw)
-		if l, is := raw.(*types.LightClientAttackEvidence); is && len(l.ByzantineValidators) == 0 {
+		if l, is := raw.(*types.LightClientAttackEvidence); is && len(l.ByzantineValidators) == 0 && strings.Contains(fmt.Sprint(aerr), "amnesia") {
 			key = "lca-amnesia-rejected-after-proto"
 		}
 		h.violation(key, fmt.Sprintf("valid, fresh, new evidence was not admitted (%s: %v)", real, firstErr(gerr, aerr)),
@@ -613,22 +643,35 @@ func gateListWith(list []types.Evidence, muts []*wireMut) (out []types.Evidence,
 // treating the real verdict as the node's behaviour.
 func (h *hist) compareListVerdict(op string, v listVerdict, realAccept bool, realErr error, list []types.Evidence) {
 	switch {
-	case realAccept && !v.accept:
-		if v.onlyExpPend {
-			// what a node that never had these items pending says about the same list
-			other := "n/a"
-			if fp, err := evidence.NewPool(dbm.NewMemDB(), h.ch.StateStore, h.ch.BlockStore); err == nil {
-				if w, err := gateList(list); err == nil {
-					other = fmt.Sprint(firstErr(fp.CheckEvidence(w)))
-				}
+	case realAccept && !v.accept && v.explained:
+		// every failing item belongs to an input class with a finding key of its own
+		seen := map[string]bool{}
+		for _, ck := range v.classKeys {
+			if seen[ck] {
+				continue
 			}
-			v.failingDescs = append(v.failingDescs, "CheckEvidence of a node with an empty pool on the same list: "+other)
-			h.violation("checkevidence-accepts-expired-pending", op+" accepted evidence that is expired by both limits because it is still pending (verification skipped for pending duplicate-vote evidence)",
-				map[string]interface{}{"failing_items": v.failingDescs})
-		} else {
-			h.violation(op+"-accepts-"+classOf(v.reasons), fmt.Sprintf("%s accepted a list the reference rejects (%v)", op, v.reasons),
-				map[string]interface{}{"failing_items": v.failingDescs})
+			seen[ck] = true
+			switch ck {
+			case "checkevidence-accepts-expired-pending":
+				// what a node that never had these items pending says about the same list
+				other := "n/a"
+				if fp, err := evidence.NewPool(dbm.NewMemDB(), h.ch.StateStore, h.ch.BlockStore); err == nil {
+					if w, err := gateList(list); err == nil {
+						other = fmt.Sprint(firstErr(h.guard("checkevidence", nil, func() error { return fp.CheckEvidence(w) })))
+					}
+				}
+				h.violation(ck, op+" accepted evidence that is expired by both limits because it is still pending (verification skipped for pending duplicate-vote evidence)",
+					map[string]interface{}{"failing_items": v.failingDescs, "empty_pool_verdict": "CheckEvidence of a node with an empty pool on the same list: " + other})
+			default:
+				h.violation(ck, fmt.Sprintf("%s accepted a list the reference rejects (%v)", op, v.reasons),
+					map[string]interface{}{"failing_items": v.failingDescs})
+			}
 		}
+	case realAccept && !v.accept:
+		h.violation(op+"-accepts-"+classOf(v.reasons), fmt.Sprintf("%s accepted a list the reference rejects (%v)", op, v.reasons),
+			map[string]interface{}{"failing_items": v.failingDescs})
+	case !realAccept && v.accept && h.anyLenient(list):
+		h.c.Count("wire/lenient-mutation-refused", 1)
 	case !realAccept && v.accept:
 		key := op + "-rejects-genuine"
 		for _, ev := range list {
@@ -665,7 +708,7 @@ func (h *hist) opCheck(list []types.Evidence, label string) {
 	}
 	var cerr error
 	if gerr == nil {
-		cerr = h.guard("checkevidence", func() error { return h.pool().CheckEvidence(wire) })
+		cerr = h.guard("checkevidence", muts, func() error { return h.pool().CheckEvidence(wire) })
 		if h.dead {
 			return
 		}
@@ -696,6 +739,21 @@ func (h *hist) opCheck(list []types.Evidence, label string) {
 		h.bounds("checkevidence", o, cpSet(h.prev), may)
 	}
 	h.adopt(o)
+}
+
+// wireSize: size of the evidence list of a block as encoded by the sender.
+func wireSize(list []types.Evidence, muts []*wireMut) int64 {
+	d := types.EvidenceData{Evidence: list}
+	pb, err := d.ToProto()
+	if err != nil {
+		return d.ByteSize()
+	}
+	for i := range pb.Evidence {
+		if i < len(muts) {
+			muts[i].apply(&pb.Evidence[i])
+		}
+	}
+	return int64(pb.Size())
 }
 
 // mutsOf returns the hostile encoders attached to the items of a list.
@@ -1031,22 +1089,29 @@ func (h *hist) tryBlock(plan chaingen.StepPlan, label string) bool {
 		}
 	}
 	plan.Evidence = list
+	wireNames := ""
 	if anyMut {
 		label += "/wire"
+		for _, m := range muts {
+			if m != nil {
+				wireNames += " re-encoded with " + m.name
+			}
+		}
 	}
 	v := h.judgeList(list)
 	if h.dead {
 		return false
 	}
 	maxBytes := h.ch.State.ConsensusParams.Evidence.MaxBytes
-	d := types.EvidenceData{Evidence: list}
-	size := d.ByteSize()
+	// the limit applies to the evidence bytes as transmitted
+	size := wireSize(list, muts)
 	refAccept := v.accept && size <= maxBytes
 	if size > maxBytes {
 		v.reasons = append(v.reasons, "oversize")
-		v.onlyExpPend = false
+		v.onlyExpPend, v.explained = false, false
 	}
 	h.cur = fmt.Sprintf("ValidateBlock(height %d, evidence %s %s)", h.ch.NextHeight(), label, descList(list))
+	h.cur += wireNames
 	block, _ := h.ch.Propose(plan)
 	var blk2 *types.Block
 	gerr := func() (err error) {
@@ -1080,7 +1145,7 @@ func (h *hist) tryBlock(plan chaingen.StepPlan, label string) bool {
 	}
 	var verr error
 	if gerr == nil {
-		verr = h.guard("validateblock", func() error { return h.ch.Exec.ValidateBlock(h.ch.State, blk2) })
+		verr = h.guard("validateblock", muts, func() error { return h.ch.Exec.ValidateBlock(h.ch.State, blk2) })
 		if h.dead {
 			return false
 		}
@@ -1125,7 +1190,7 @@ func (h *hist) tryBlock(plan chaingen.StepPlan, label string) bool {
 	if h.dead || !realAccept {
 		return false
 	}
-	if !refAccept && !v.onlyExpPend {
+	if !refAccept && !v.explained {
 		return false // unknown disagreement already reported; do not build on it
 	}
 	return h.applyBlock(plan, blk2, label)
